@@ -284,7 +284,7 @@ func (d *driver) confirmAndShrink(rec *record, f *finding) (string, *replayFile,
 				try(c)
 			}
 		}
-		for changed := true; changed; {
+		for changed := true; changed && runs < budget && time.Now().Before(deadline); {
 			changed = false
 			// 4. drop tasks
 			for t := len(cur.Tasks) - 1; t >= 0 && len(cur.Tasks) > 1; t-- {
@@ -314,9 +314,14 @@ func (d *driver) confirmAndShrink(rec *record, f *finding) (string, *replayFile,
 		}
 		// 7. fewer context switches: let pre-empted slices run on to their
 		// operation boundary instead, in chunks of decreasing size (ddmin)
+		exhausted := func() bool { return runs >= budget || time.Now().After(deadline) }
+	switchLoop:
 		for chunk := (countSwitches(cur.Sched.Explicit) + 1) / 2; chunk >= 1; chunk /= 2 {
 			for again := true; again; {
 				again = false
+				if exhausted() {
+					break switchLoop
+				}
 				var idx []int
 				for i, sl := range cur.Sched.Explicit {
 					if !sl.ToBoundary {
@@ -324,6 +329,9 @@ func (d *driver) confirmAndShrink(rec *record, f *finding) (string, *replayFile,
 					}
 				}
 				for lo := 0; lo < len(idx); lo += chunk {
+					if exhausted() {
+						break switchLoop
+					}
 					hi := lo + chunk
 					if hi > len(idx) {
 						hi = len(idx)
@@ -336,9 +344,6 @@ func (d *driver) confirmAndShrink(rec *record, f *finding) (string, *replayFile,
 						again = true
 						break
 					}
-				}
-				if runs >= budget || time.Now().After(deadline) {
-					break
 				}
 			}
 			if chunk == 1 {
